@@ -84,6 +84,7 @@ type Solver struct {
 	timeoutS int
 	thorough bool
 	useCache bool
+	retry    bool // second round with other seeds for undecided goals (property checks; not for obligations listed as known findings)
 	cacheDir string
 	mu       sync.Mutex
 	byBackend map[string]int
@@ -206,6 +207,32 @@ func (s *Solver) solve(name, query string, cover bool) SolveResult {
 	}
 	if cover {
 		os.Remove(file)
+		return best
+	}
+	// Second round for an undecided proof goal: solver heuristics are sensitive to the order of declarations, so an
+	// obligation that usually takes a few seconds occasionally runs out of time. Before it is reported, it is retried with
+	// twice the budget under three other random seeds; only a goal undecided in both rounds counts as failed.
+	if !s.thorough && s.retry && (best.Status == "timeout" || best.Status == "unknown") {
+		ctx2, cancel2 := context.WithCancel(context.Background())
+		defer cancel2()
+		ch2 := make(chan SolveResult, 3)
+		for seed := 1; seed <= 3; seed++ {
+			seed := seed
+			sd := solverDef{"z3-new", func(f string, t int) []string {
+				return []string{"z3-new", fmt.Sprintf("-T:%d", t), fmt.Sprintf("smt.random_seed=%d", seed), fmt.Sprintf("sat.random_seed=%d", seed), f}
+			}}
+			go func() { ch2 <- runSolver(ctx2, sd, file, 2*to) }()
+		}
+		for i := 0; i < 3; i++ {
+			r := <-ch2
+			s.account(r)
+			if r.Status == "unsat" {
+				r.Solver = "z3-new(retry)"
+				s.cachePut(h, r)
+				os.Remove(file)
+				return r
+			}
+		}
 	}
 	return best
 }
